@@ -150,7 +150,7 @@ func (s *c14skel) stmt(st ast.Stmt, d int) {
 				return
 			}
 			if t := c14text(p, x); strings.HasPrefix(t, "e.Set(") || strings.HasPrefix(t, "iter.returnIter(") ||
-				strings.Contains(t, "e.val.String()") || strings.Contains(t, "promiseCap.re") || strings.Contains(t, "leaveAbrupt()") {
+				strings.Contains(t, "e.val.String()") || strings.Contains(t, "valueString()") || strings.Contains(t, "promiseCap.re") || strings.Contains(t, "leaveAbrupt()") {
 				s.add(d, "%s", t)
 				return
 			}
@@ -311,6 +311,7 @@ func genC14(p *Pkg) (map[string]string, error) {
 		{"asyncRunner", "start", "skel_asyncRunnerStart"},
 		{"Exception", "Error", "skel_ExceptionError"},
 		{"Exception", "String", "skel_ExceptionString"},
+		{"Exception", "valueString", "skel_ExceptionValueString"},
 	} {
 		d := p.FuncDecl(f.recv, f.name)
 		if d == nil {
